@@ -412,7 +412,7 @@ def f_spec_published(a):
     try:
         r = BBAN(dec(a[0]), dec(a[1])).validate_national_checksum()
         return "1" if r is True else ("RETURNED-" + repr(r))
-    except exceptions.InvalidBBANChecksum:
+    except exceptions.SchwiftyException:      # failure is reported by raising (Norway: InvalidAccountCode when no digit exists)
         return "0"
     except Exception as e:  # noqa: BLE001
         return canon_exc(e)
